@@ -4,7 +4,7 @@ import ast, copy
 
 from .core import ( rule, Result, AnalysisError, dotted, call_name, const_value, is_call_to, names_in, attrs_in, walk_no_nested,
                     norm_text, dotted_in, stmt_of, pmatch, pfind, txt )
-from .fold import try_fold, fold, NoFold
+from .fold import try_fold, fold, NoFold, run_block
 from .grammar import grammar_of, Node, Decide, FILES
 from .layout import ( ParserLayout, ProducerLayout, Seq, producer_branches, branch_selected, best_match, seq_match, show_atom,
                       resolve_struct_lits, atom_eq )
@@ -489,13 +489,31 @@ def t_ncp( ctx ):
         for f, sh, mask in FIELDS:
             w |= ( vals[f] & mask ) << sh
         return ( w << ( 16 if large else 0 )) + vals['size']
+    # tables the class keeps its fields in ( a shared ( name, shift, mask, default ) table ... ) are read by value too
+    consts = {}
+    cd = src.get( 'Connection' )
+    for a_ in cd.body:
+        if isinstance( a_, ast.Assign ) and len( a_.targets ) == 1 and isinstance( a_.targets[0], ast.Name ):
+            v_ = try_fold( a_.value, consts, default=NoFold )
+            if v_ is not NoFold:
+                for pre_ in ( 'self.', 'cls.', 'Connection.', '' ):
+                    consts[pre_ + a_.targets[0].id] = v_
+    # the locals the encoding is written with: the plain assignments of __init__ that precede it
+    def enc_locals( env ):
+        for st in ast.walk( ini ):
+            if isinstance( st, ast.Assign ) and st.lineno < enc_assign[0].lineno and all( isinstance( t_, ast.Name ) for t_ in st.targets ):
+                try:
+                    run_block( [ st ], env )
+                except NoFold:
+                    pass
     bad_enc = None
     n_enc = 0
     for large in ( False, True ):
         base = dict( size=0x1F4 if not large else 0x0FA0, variable=0, priority=0, type=0, redundant=0 )
         probes = [ dict( base ) ] + [ dict( base, **{ f: v } ) for f, sh, mask in FIELDS for v in range( 1, mask + 1 ) ] + [ dict( base, size=1 ), dict( base, size=0x1FF if not large else 0xFFFF ) ]
         for vals in probes:
-            env = dict( vals ); env['self._large'] = large
+            env = dict( consts ); env.update( vals ); env['self._large'] = large; env.setdefault( 'NCP', None )
+            enc_locals( env )
             try:
                 got = fold( enc, env )
             except NoFold as exc:
@@ -511,38 +529,33 @@ def t_ncp( ctx ):
         vals, large, got, want = bad_enc
         res.bad( src, enc_assign[0], 'encode: %s, large=%s -> 0x%X' % ( ', '.join( '%s=%d' % kv for kv in sorted( vals.items())), large, got ),
                  'the CIP Network Connection Parameters of these values are 0x%X ( redundant owner bit 15, type 13-14, priority 10-11, variable 9, size in the low 9 bits; Large: the same parameter bits 16 bits up, size in the low 16 bits )' % want )
-    # decode
-    kws = {}
-    for c in ast.walk( dec ):
-        if is_call_to( c, 'dotdict' ) and c.keywords:
-            kws = { k.arg: k.value for k in c.keywords }
-    if not kws:
-        raise AnalysisError( 'Connection.decoding: dotdict( field=... ) not found' )
-    from .fold import run_block
-    pre = [ st for st in dec.body if isinstance( st, ast.Assign ) and all( isinstance( t_, ast.Name ) for t_ in st.targets ) and not any( is_call_to( c_, 'dotdict' ) for c_ in ast.walk( st )) ]
+    # decode: the whole body of decoding() is run on probe words; the mapping it returns is compared field by field
     words = [ 0, 0xFFFFFFFF ] + [ 1 << k for k in range( 32 ) ] + [ 0x43F4, 0x420001F4 ]
-    for f, ( sh, mask ) in sorted( spec.NCP_FIELDS_SMALL.items() ):
-        e = kws.get( f )
-        if e is None:
-            res.bad( src, dec, 'decoding lacks %s' % f, 'every NCP field must be decoded' ); continue
-        wrong = None
-        for large in ( False, True ):
-            for w in words:
-                if not large and w > 0xFFFF:
-                    continue
-                try:
-                    env_ = { 'self._NCP': w, 'self._large': large }
-                    run_block( pre, env_, ignore_calls=( 'log', ))		# locals the fields are written with ( shift = 16 if self._large else 0 )
-                    got = fold( e, env_ )
-                except NoFold as exc:
-                    raise AnalysisError( 'Connection.decoding: %s not foldable: %s' % ( f, exc ))
+    wrongs = {}
+    n_dec = 0
+    for large in ( False, True ):
+        for w in words:
+            if not large and w > 0xFFFF:
+                continue
+            env_ = dict( consts ); env_.update( { 'self._NCP': w, 'self._large': large, 'self.other': {}, 'dotdict': lambda *a_, **kw_: dict( *a_, **kw_ ) } )
+            try:
+                out = run_block( dec.body, env_, ignore_calls=( 'log', 'update' ))
+            except NoFold as exc:
+                raise AnalysisError( 'Connection.decoding: not foldable: %s' % exc )
+            if out.kind != 'return' or not isinstance( out.value, dict ):
+                raise AnalysisError( 'Connection.decoding: the mapping returned not found ( %r )' % ( out, ))
+            n_dec += 1
+            for f, ( sh, mask ) in sorted( spec.NCP_FIELDS_SMALL.items() ):
                 want = ( w & ( spec.NCP_FIELDS_LARGE['size'][1] if large else mask )) if f == 'size' else ( w >> ( sh + ( 16 if large else 0 ))) & mask
-                if got != want and wrong is None:
-                    wrong = ( w, large, got, want )
+                got = out.value.get( f, 'absent' )
+                if got != want and f not in wrongs:
+                    wrongs[f] = ( w, large, got, want )
+    for f, ( sh, mask ) in sorted( spec.NCP_FIELDS_SMALL.items() ):
+        wrong = wrongs.get( f )
         if wrong is None:
-            res.ok( src, e, 'decode: size = NCP & ( 0xFFFF if large else 0x01FF )' if f == 'size' else 'decode: %s = %d-bit field at bit %d (+16 when large)' % ( f, bin( mask ).count( '1' ), sh ))
+            res.ok( src, dec, 'decode: size = NCP & ( 0xFFFF if large else 0x01FF )' if f == 'size' else 'decode: %s = %d-bit field at bit %d (+16 when large)' % ( f, bin( mask ).count( '1' ), sh ))
         else:
-            res.bad( src, e, 'decode %s: NCP 0x%X, large=%s -> %r' % (( f, ) + wrong[:3] ), 'CIP NCP field %s is %s: %r' % ( f, 'the low 9 bits ( small ) / 16 bits ( large )' if f == 'size' else 'mask 0x%X at bit %d (+16 when large)' % ( mask, sh ), wrong[3] ))
+            res.bad( src, dec, 'decode %s: NCP 0x%X, large=%s -> %r' % (( f, ) + wrong[:3] ), 'CIP NCP field %s is %s: %r' % ( f, 'the low 9 bits ( small ) / 16 bits ( large )' if f == 'size' else 'mask 0x%X at bit %d (+16 when large)' % ( mask, sh ), wrong[3] ))
     # large inference: the expression stored into self._large where no explicit flag is given
     inf = [ a_ for a_ in ast.walk( ini ) if isinstance( a_, ast.Assign ) and dotted( a_.targets[0] ) == 'self._large' and { 'size', 'NCP' } <= names_in( a_.value ) ]
     if len( inf ) != 1:
@@ -1158,7 +1171,7 @@ def k_ncpstate( ctx ):
     if len( keep ) != 1:
         raise AnalysisError( 'Connection.__init__: the choice between encoding the parameters and keeping the supplied NCP not found' )
     params = [ a.arg for a in ini.args.args if a.arg in ( 'size', 'variable', 'priority', 'type', 'redundant' ) ]
-    ld_ = { t.id: a.value for a in walk_no_nested( ini ) if isinstance( a, ast.Assign ) for t in a.targets if isinstance( t, ast.Name ) }
+    ld_ = { t.id: a.value for a in sorted(( a for a in walk_no_nested( ini ) if isinstance( a, ast.Assign )), key=lambda a: a.lineno ) for t in a.targets if isinstance( t, ast.Name ) }
     wrong = []
     for ncp, full in (( None, True ), ( None, False ), ( 0x43F4, True ), ( 0x43F4, False )):
         env = dict( NCP=ncp, **{ p_: ( 1 if full else None ) for p_ in params } )
